@@ -61,6 +61,21 @@ def defaults_sweep(ctx):
             ctx.violation("a valid document with a valid unused default is rejected: " + t.split(":")[1], {"document": show(canon_doc(d))})
 
 
+def null_outside_metadata(doc):
+    """a None anywhere in the document except inside a top-level `metadata` mapping"""
+    def walk(v):
+        if v is None:
+            return True
+        if isinstance(v, dict):
+            return any(walk(x) for x in v.values())
+        if isinstance(v, list):
+            return any(walk(x) for x in v)
+        return False
+    if not isinstance(doc, dict):
+        return False
+    return any(walk(v) for k, v in doc.items() if k != "metadata")
+
+
 def accepted_without_assertions(doc):
     """does `python -O` (assert statements removed) resolve the document?"""
     import subprocess, sys
@@ -147,7 +162,7 @@ def run(ctx):
         graphs, gdocs = [], []
         for (d, (t, base), rep), a in zip(zip(docs, meta, reps), acc):
             routes = ["dict", "builder_fromdict"]
-            if ctx.rng.random() < 0.35:
+            if ctx.rng.random() < 0.35 or null_outside_metadata(d):
                 routes.append("yaml")
                 if json_safe(d):
                     routes.append("json")
@@ -179,6 +194,9 @@ def run(ctx):
             # (the text routes read the STRING "Infinity" in a start-time position as infinity, by design
             # — C16 — while a dict carrying that string is rightly rejected: not a disagreement of routes)
             for r, c in res.items():
+                if r in ("yaml", "json") and null_outside_metadata(d) and c[0] == "ok":
+                    ctx.violation(f"a document with a null outside metadata is resolved through the {r} text route",
+                                  {"document": show(canon_doc(d)), "route": r})
                 if r in ("yaml", "json") and has_none:
                     continue
                 if (c[0] == "ok") != (code[0] == "ok"):
